@@ -104,7 +104,11 @@ func genMessage(t *rapid.T) string {
 	case 2:
 		return "ünï çödé: 日本語"
 	case 3:
-		return plain.Draw(t, "m") + "\n" + strings.Repeat("x", rapid.IntRange(1, 4000).Draw(t, "long"))
+		n := rapid.IntRange(1, 10000).Draw(t, "long")
+		if rapid.Bool().Draw(t, "nearBoundary") {
+			n = []int{4095, 4096, 4097, 8191, 8192, 8193}[rapid.IntRange(0, 5).Draw(t, "b")]
+		}
+		return plain.Draw(t, "m") + "\n" + strings.Repeat("x", n) + "\ntail"
 	case 4:
 		return "tree " + strings.Repeat("ab", 20) + "\nauthor x"
 	case 5:
